@@ -38,6 +38,10 @@ CHECKS.update({
 CHECKS.update({
     "C10": ("exploration", "Lang.tla reference static semantics: TLC enumerates all two-statement rules of the fragment with their verdict; a stratified sample is given to the real CLI and LangTrace (TLC) recomputes Errors(prog) and compares accept/reject, class and line; planted symbol-level single-defect mutants; corpus as positive side", "fragment: flat rules over a fixed signature (no branch/match in the enumerated part); classes recognised by message text", "3 C10"),
 })
+CHECKS.update({
+    "C09": ("exploration", "programs: Lang.tla well-formed programs (TLC-enumerated), corpus, repository theories, extremes; module mode: CLI exit status + rustc type-check of the emitted modules; component mode: real rustc per rule library, link, smoke run", "rustc is the oracle; there is no model of Rust", "3 C09"),
+    "C20": ("exploration", "the same histories executed in fresh processes under perturbed address-space / heap / environment / stack conditions; transcripts compared line by line by DetTrace (TLC); EqlogEval names the design's sources of nondeterminism", "process-level perturbations only", "3 C20"),
+})
 NOT_YET = {
 }
 NA = {
